@@ -500,10 +500,10 @@ static void key(uint64_t k[2])
 static const char *lname(int l) { return LT[l].name; }
 
 /* ---------------------------------------------------------------- start states */
-#define NSTART 7
+#define NSTART 8
 static const char *START_DESC[2][NSTART] = {
-	{ "fresh server, source check on", "fresh server, source check off (-c)", "A logged in on slot 0, source check on", "A and B logged in, source check off (-c)", "A logged in on slot 0, lazy mode with a ping held by the server, source check on", "as before, but A talks from an IPv6 address that shares its first 32 bits with the third party C6", "A logged in (as start state 2) with the server's tunnel address in the middle of the pool (10.0.0.2: sessions get .1 and .3)" },
-	{ "fresh server", "A on slot 0 and B on slot 1 logged in", "A and B logged in, then A silent for 55 s while B pinged", "A logged in and switched to raw mode, B logged in", "A and B logged in, A in lazy mode with a ping held by the server", "as before, but A talks from an IPv6 address that shares its first 32 bits with the third party C6", "A and B logged in, the server's tunnel address in the middle of the pool (10.0.0.2: sessions get .1 and .3)" } };
+	{ "fresh server, source check on", "fresh server, source check off (-c)", "A logged in on slot 0, source check on", "A and B logged in, source check off (-c)", "A logged in on slot 0, lazy mode with a ping held by the server, source check on", "as before, but A talks from an IPv6 address that shares its first 32 bits with the third party C6", "A logged in (as start state 2) with the server's tunnel address in the middle of the pool (10.0.0.2: sessions get .1 and .3)", "A logged in and switched to raw mode, source check on" },
+	{ "fresh server", "A on slot 0 and B on slot 1 logged in", "A and B logged in, then A silent for 55 s while B pinged", "A logged in and switched to raw mode, B logged in", "A and B logged in, A in lazy mode with a ping held by the server", "as before, but A talks from an IPv6 address that shares its first 32 bits with the third party C6", "A and B logged in, the server's tunnel address in the middle of the pool (10.0.0.2: sessions get .1 and .3)", "A (raw mode) and B logged in, then A silent for 55 s while B pinged" } };
 
 static int find_letter(int kind, int src, int u, int arg)
 {
@@ -536,11 +536,13 @@ static void boot(int start)
 		if (start >= 2) { pre(L_V, SRC_A, -1, 0); pre(L_LOGIN, SRC_A, 0, HK_CUR); }
 		if (start == 3) { pre(L_V, SRC_B, -1, 0); pre(L_LOGIN, SRC_B, 1, HK_CUR); }
 		if (start == 4 || start == 5) { pre(L_O, SRC_A, 0, 'l'); pre(L_P, SRC_A, 0, 0); }
+		if (start == 7) { pre(L_RAWLOGIN, SRC_A, 0, RK_PLUS1); }
 	} else {
 		if (start >= 1) { pre(L_V, SRC_A, -1, 0); pre(L_LOGIN, SRC_A, 0, HK_CUR); pre(L_V, SRC_B, -1, 0); pre(L_LOGIN, SRC_B, 1, HK_CUR); }
 		if (start == 2) { pre(L_TIME, -1, -1, 55); pre(L_P, SRC_B, 1, 0); }
 		if (start == 3) { pre(L_RAWLOGIN, SRC_A, 0, RK_PLUS1); }
 		if (start == 4 || start == 5) { pre(L_O, SRC_A, 0, 'l'); pre(L_P, SRC_A, 0, 0); }
+		if (start == 7) { pre(L_RAWLOGIN, SRC_A, 0, RK_PLUS1); pre(L_TIME, -1, -1, 55); pre(L_P, SRC_B, 1, 0); }
 	}
 }
 
